@@ -52,6 +52,18 @@ pub fn build(family: &str, tier: Tier) -> Vec<Cfg> {
                     }
                 }
             }
+            // timers and sessions: 3.1.1, a session lost at the reconnect, late service calls, ack timeouts next to keep-alive pings, a retry limit
+            for (name, v311) in [("timers-v5", false), ("timers-v311", true)] {
+                let mut c = Cfg::base("service-time", name);
+                c.mqtt311 = v311; c.keep_alive = Some(2); c.ping_timeout = Duration::from_millis(600); c.max_retries = Some(1);
+                c.submits = vec![spec_t("pub1-700", publish("t", 1), 700), spec_t("pub2-300", publish("t", 2), 300), spec("pub0", publish("t", 0))];
+                c.max_submits = 2; c.max_conns = 2; c.budget = 2; c.max_depth = 26;
+                c.allow.close = true; c.allow.reorder = true; c.allow.tick_before = true; c.allow.idle_ticks = vec![400];
+                c.session_answers = vec![true, false];
+                c.clock = Clock::Late(vec![1]);
+                c.closure = true; c.closure_steps = 80;
+                out.push(c);
+            }
         }
         "robustness" => {
             for v311 in [false, true] {
@@ -200,6 +212,28 @@ pub fn build(family: &str, tier: Tier) -> Vec<Cfg> {
                     }
                 }
             }
+            // acknowledgement variety: failing and reordered acks, ack timeouts, retry limit, one-at-a-time drain, shrinking receive maximum
+            for (name, v311) in [("acks-v5", false), ("acks-v311", true)] {
+                if !thorough && v311 { continue; }
+                let mut c = Cfg::base("qos-delivery", name);
+                c.mqtt311 = v311;
+                c.submits = vec![spec_t("pub2-900", publish("t", 2), 900), spec("pub1", publish("t", 1)), spec("pub2", publish("u", 2))];
+                c.max_submits = 2; c.max_conns = 2; c.budget = 2; c.max_depth = 30;
+                c.max_retries = Some(1);
+                c.allow.close = true; c.allow.fail_acks = true; c.allow.reorder = true; c.allow.server_disconnect = !v311;
+                c.session_answers = vec![true, false];
+                c.clock = Clock::Late(vec![1]);
+                out.push(c);
+            }
+            {
+                let mut c = Cfg::base("qos-delivery", "drain1-rm-by-conn");
+                c.one_at_a_time = true; c.receive_maximum_by_conn = vec![None, Some(1)];
+                c.submits = vec![spec("pub2", publish("t", 2)), spec("pub1", publish("t", 1))];
+                c.max_submits = 3; c.max_conns = 2; c.budget = 2; c.max_depth = 30;
+                c.allow.close = true; c.allow.reorder = true;
+                c.session_answers = vec![true, false];
+                out.push(c);
+            }
             // a tiny buffer on one connection only: the PUBLISH / PUBREL of that connection is cut at every byte while the other connections stay short
             for caps in [vec![4096usize, 5, 4096], vec![5, 4096, 4096], vec![4096, 4096, 5], vec![4096, 4, 4096]] {
                 for (policy, v311) in [(OfflineQueuePolicy::PreserveAll, false), (OfflineQueuePolicy::PreserveNothing, false), (OfflineQueuePolicy::PreserveAll, true)] {
@@ -323,6 +357,18 @@ pub fn build(family: &str, tier: Tier) -> Vec<Cfg> {
                     }
                 }
             }
+            // half-written publishes count as sent: tiny buffer, with the fair closure (the stalled ones must still go out)
+            for drain in [false, true] {
+                if !thorough && drain { continue; }
+                let mut c = Cfg::base("flow-control", &format!("cap5-rm1-drain{}", drain));
+                c.cap = 5; c.connack.receive_maximum = Some(1); c.one_at_a_time = drain;
+                c.submits = vec![spec("pub1", publish("t", 1)), spec_t("pub2-900", publish("t", 2), 900)];
+                c.max_submits = 2; c.max_conns = 2; c.budget = 1; c.max_depth = 70;
+                c.allow.close = true;
+                c.session_answers = vec![true];
+                c.closure = true; c.closure_steps = 300;
+                out.push(c);
+            }
             // the server announces a different Receive Maximum on the resumed connection
             for rms in [vec![None, Some(1u16)], vec![Some(3), Some(1)], vec![Some(2), Some(1)], vec![Some(1), Some(2)]] {
                 for drain in [false, true] {
@@ -356,6 +402,16 @@ pub fn build(family: &str, tier: Tier) -> Vec<Cfg> {
                     c.session_answers = vec![true, false];
                     out.push(c);
                 }
+            }
+            for (name, v311, drain) in [("v311", true, false), ("drain1", false, true)] {
+                let mut c = Cfg::base("ordering", name);
+                c.mqtt311 = v311; c.one_at_a_time = drain;
+                c.submits = vec![spec("pub1", publish("t", 1)), spec("pub2", publish("t", 2)), spec_t("sub-500", subscribe(&["f"]), 500), spec("pub0", publish("t", 0))];
+                c.max_submits = 4; c.max_conns = 2; c.budget = 1; c.max_depth = 30;
+                c.allow.close = true;
+                c.session_answers = vec![true, false];
+                c.clock = Clock::Late(vec![1]);
+                out.push(c);
             }
             // a tiny output buffer on the second connection only: a retransmission is cut half-written, with others queued behind it,
             // and the session is resumed once more
@@ -406,6 +462,17 @@ pub fn build(family: &str, tier: Tier) -> Vec<Cfg> {
                     c.clock = Clock::Prompt;
                     out.push(c);
                 }
+            }
+            for (name, v311, cap) in [("v311-k2", true, 4096usize), ("cap4-k2", false, 4), ("inbound-k2", false, 4096)] {
+                let mut c = Cfg::base("keepalive", name);
+                c.mqtt311 = v311; c.cap = cap; c.keep_alive = Some(2);
+                c.ping_timeout = Duration::from_millis(700);
+                c.submits = vec![spec("pub1", publish("t", 1)), spec("sub", subscribe(&["f"]))];
+                c.max_submits = 1; c.max_conns = 1; c.budget = 2; c.max_depth = if cap == 4 { 60 } else { 22 };
+                if name == "inbound-k2" { c.inbound = vec![Pkt::Publish(VPublish { topic: "in".into(), qos: 1, packet_id: 9, ..Default::default() }), Pkt::Publish(VPublish { topic: "in".into(), qos: 0, ..Default::default() })]; c.max_inbound = 2; }
+                c.allow.tick_before = true; c.allow.reorder = true; c.allow.idle_ticks = vec![400];
+                c.clock = Clock::Prompt;
+                out.push(c);
             }
             for (first, second) in [(None, Some(1u16)), (Some(2u16), Some(0u16)), (Some(0u16), Some(3u16))] {
                 let mut c = Cfg::base("keepalive", &format!("server-ka-by-conn-{:?}-{:?}", first, second));
@@ -466,6 +533,19 @@ pub fn build(family: &str, tier: Tier) -> Vec<Cfg> {
                         out.push(c);
                     }
                 }
+            }
+            // an aliased publish interrupted half-written (tiny buffer): its binding was never completely transmitted
+            for resolver in [ResolverKind::Lru(2), ResolverKind::Manual] {
+                if !thorough && resolver == ResolverKind::Manual { continue; }
+                let mut c = Cfg::base("alias", &format!("cap5-{:?}", resolver));
+                c.resolver = resolver; c.cap = 5;
+                c.connack.topic_alias_maximum = Some(2);
+                let aliased = |topic: &str, alias: Option<u16>, qos: u8| Pkt::Publish(VPublish { topic: topic.into(), qos, topic_alias: alias, ..Default::default() });
+                c.submits = vec![spec("t1", aliased("t1", Some(1), 1)), spec("t1-again", aliased("t1", Some(1), 0)), spec("t2", aliased("t2", Some(2), 0))];
+                c.max_submits = 2; c.max_conns = 2; c.budget = 1; c.max_depth = 70;
+                c.allow.close = true;
+                c.session_answers = vec![true, false];
+                out.push(c);
             }
             // the server announces a different Topic Alias Maximum on the second connection
             for (first, second) in [(2u16, 1u16), (1, 2), (2, 0)] {
@@ -558,6 +638,16 @@ pub fn build(family: &str, tier: Tier) -> Vec<Cfg> {
                     c.clock = Clock::Late(vec![1, 700]);
                     out.push(c);
                 }
+            }
+            for (name, v311, rm) in [("v311-nosession", true, None), ("queued-behind-rm1", false, Some(1u16))] {
+                let mut c = Cfg::base("timeouts", name);
+                c.mqtt311 = v311; c.connack.receive_maximum = rm; c.max_retries = Some(1);
+                c.submits = vec![spec_t("pub1-500", publish("t", 1), 500), spec_t("pub2-2000", publish("t", 2), 2000), spec_t("sub-500", subscribe(&["f"]), 500)];
+                c.max_submits = 2; c.max_conns = 3; c.budget = 3; c.max_depth = 28;
+                c.allow.close = true; c.allow.tick_before = true; c.allow.idle_ticks = vec![300]; c.allow.reorder = true;
+                c.session_answers = vec![true, false];
+                c.clock = Clock::Late(vec![1, 700]);
+                out.push(c);
             }
             // an ack timeout applies to QoS 0 publishes too (they wait for the write completion): the timeout fires while
             // the write is stalled and the completion then finds one operation of its batch already gone
